@@ -82,7 +82,8 @@ def run_and_replay(args):
         cfp = os.path.join(root, 'replay.json')
         with open(cfp, 'w') as fh:
             json.dump(cfg2, fh)
-        r2 = sge.run_argv_inproc(['-c', cfp], out2) if how == 'inproc' else sge.run_argv_subproc(['-c', cfp], out2)
+        # a replay is another process: by default with another string-hash seed than the original run
+        r2 = sge.run_argv_inproc(['-c', cfp], out2) if how == 'inproc' else sge.run_argv_subproc(['-c', cfp], out2, env_extra={'PYTHONHASHSEED': str(1 + d.get('_hs', 6))})
         res.update(exit2=r2['exit'], exc2=r2['exc'], msg2=(r2.get('exc_msg') or '')[:200], files2=r2['files'],
                    log2=[m for lvl, m in r2['log'] if lvl in ('CRITICAL', 'ERROR')][:3])
         res['files1'] = {k: v.replace(root, '$ROOT') for k, v in res['files1'].items()}
@@ -241,7 +242,7 @@ def explore(ctx: Ctx):
     mapping = readme_mapping()
     n = ctx.n(70, 700)
     designs = [make_design(rng, i) for i in range(n)]
-    jobs = [(d, 'subproc' if i % 10 == 0 else 'inproc') for i, d in enumerate(designs)]
+    jobs = [(d, 'subproc' if i % 5 == 0 else 'inproc') for i, d in enumerate(designs)]
     results = pool_map(run_and_replay, jobs, chunksize=2)
     exprs, meta = [], []
     for (d, how), r in zip(jobs, results):
@@ -319,7 +320,7 @@ def run(ctx: Ctx):
     return {'rule': 'Random SGE and cDNA designs over the combinations of optional files (annotation, PAM VCF, custom manifest, background VCF, '
                     'mask, codon table, cDNA annotation) and options (adaptors, limits, the four flags): run from the command line, check that '
                     'config.json records every argument/option under the JSON property the README documents, then run `valiant -c` on it with '
-                    'only the output directory changed and compare every output file byte for byte (a tenth of them as real subprocesses). '
+                    'only the output directory changed and compare every output file byte for byte (a fifth of them as real subprocesses, the replay under another PYTHONHASHSEED). '
                     'Invalid configurations (adaptor, limits, frame-shift without non-synonymous forcing, unknown or wrong mode, missing input '
                     'file, missing directory, not JSON, missing required property) from the command line and from a file must exit non-zero '
                     'with no library file. S-api: the constructor of SGEConfig against the validity rule of the model. Non-trivial = a '
